@@ -1,7 +1,12 @@
 import FranzVerif.Model.Txn
 import FranzVerif.Proof.Txn
+import FranzVerif.Proof.TxnEos
 /-! C10 — GroupTransactSession gives exactly-once consume-transform-produce. Theorems over ALL accepted
-histories of `Model.Eos`; the tie is the history correspondence of the `eos` scenarios. -/
+histories of `Model.Eos`; the tie is the history correspondence of the `eos` scenarios.
+
+Both statements hold as first written, with the observables unchanged (`Proof.Eos.Inv`: the output ids of the
+history are pairwise distinct, each is an input, each `output` event names a transaction with a `batch` event
+that holds the id; the `quiesce` rule gives the output of every input). -/
 namespace Props.C10
 open Model.Eos Proof.Eos
 
@@ -9,13 +14,86 @@ open Model.Eos Proof.Eos
 theorem every_input_output_exactly_once (h : List Ev) (s : St) (hacc : run {} (h ++ [Ev.quiesce]) = some s)
     (hcomplete : isIncomplete h = false) (id : Id) (hin : id ∈ inputsOf h) :
     (outputIds h).count id = 1 := by
-  sorry
+  obtain ⟨s₁, hr₁, hchk⟩ := run_snoc hacc
+  have hi := inv_of_run hr₁
+  have hin' : id ∈ s₁.inputs := by rw [hi.inputs]; exact List.mem_reverse.2 hin
+  obtain ⟨o, ho, he⟩ := quiesce_check hchk (by rw [hi.incomplete]; exact hcomplete) id hin'
+  have hmem : id ∈ outputIds h := by
+    have : id ∈ s₁.outs.map (·.1) := List.mem_map.2 ⟨o, ho, he⟩
+    rw [hi.outs] at this
+    exact List.mem_reverse.1 this
+  have hle := List.nodup_iff_count.1 hi.outNodup id
+  have hpos := List.count_pos_iff.2 hmem
+  omega
 
 /-- The output view holds nothing else: every output belongs to an input, at most once, and was written by a
 transaction whose polled batch contained that input. -/
 theorem outputs_only_for_inputs (h : List Ev) (s : St) (hacc : run {} h = some s) :
     (outputIds h).Nodup ∧ (∀ id ∈ outputIds h, id ∈ inputsOf h) ∧
     ∀ off id part t, Ev.output off id part t ∈ h → ∃ m ids, Ev.batch m t ids ∈ h ∧ id ∈ ids := by
-  sorry
+  have hi := inv_of_run hacc
+  exact ⟨hi.outNodup, hi.outIn, hi.outBatch⟩
+
+/-! ### non-vacuity -/
+
+/-- Five inputs, two members, three transactions: member 1's transaction 1 (inputs 1, 2) commits; member 1's
+transaction 2 (inputs 3, 4, 5) is aborted when member 2 joins and member 1 leaves; member 2's transaction 3
+polls inputs 3, 4, 5 again and commits. The read_committed view of the output topic holds each input's output
+once, written by transaction 1 or 3. Accepted. -/
+example : accepts
+    [.input 1, .input 2, .input 3, .input 4, .input 5,
+     .memberStart 1,
+     .batch 1 1 [1, 2], .endStart 1 1 true, .endDone 1 1 0,
+     .batch 1 2 [3, 4, 5], .memberStart 2, .endStart 1 2 true, .endDone 1 2 1, .memberStop 1,
+     .batch 2 3 [3, 4, 5], .endStart 2 3 true, .endDone 2 3 0, .memberStop 2,
+     .output 0 1 0 1, .output 1 2 0 1, .output 6 3 0 3, .output 7 4 0 3, .output 0 5 1 3,
+     .quiesce] = true := by decide
+
+/-- The observables of that history (without the closing `quiesce`). -/
+example : let h : List Ev :=
+    [.input 1, .input 2, .input 3, .input 4, .input 5,
+     .memberStart 1,
+     .batch 1 1 [1, 2], .endStart 1 1 true, .endDone 1 1 0,
+     .batch 1 2 [3, 4, 5], .memberStart 2, .endStart 1 2 true, .endDone 1 2 1, .memberStop 1,
+     .batch 2 3 [3, 4, 5], .endStart 2 3 true, .endDone 2 3 0, .memberStop 2,
+     .output 0 1 0 1, .output 1 2 0 1, .output 6 3 0 3, .output 7 4 0 3, .output 0 5 1 3]
+    inputsOf h = [1, 2, 3, 4, 5] ∧ outputIds h = [1, 2, 3, 4, 5] ∧ isIncomplete h = false := by decide
+
+/-- A duplicated output (input 3 written by the aborted transaction 2 and again by transaction 3): refused. -/
+example : accepts
+    [.input 1, .input 2, .input 3, .input 4, .input 5,
+     .memberStart 1,
+     .batch 1 1 [1, 2], .endStart 1 1 true, .endDone 1 1 0,
+     .batch 1 2 [3, 4, 5], .memberStart 2, .endStart 1 2 true, .endDone 1 2 1, .memberStop 1,
+     .batch 2 3 [3, 4, 5], .endStart 2 3 true, .endDone 2 3 0, .memberStop 2,
+     .output 0 1 0 1, .output 1 2 0 1, .output 3 3 0 2, .output 6 3 0 3, .output 7 4 0 3, .output 0 5 1 3,
+     .quiesce] = false := by decide
+
+/-- An input without output (input 4 lost): refused (at `quiesce`). -/
+example : accepts
+    [.input 1, .input 2, .input 3, .input 4, .input 5,
+     .memberStart 1,
+     .batch 1 1 [1, 2], .endStart 1 1 true, .endDone 1 1 0,
+     .batch 1 2 [3, 4, 5], .memberStart 2, .endStart 1 2 true, .endDone 1 2 1, .memberStop 1,
+     .batch 2 3 [3, 4, 5], .endStart 2 3 true, .endDone 2 3 0, .memberStop 2,
+     .output 0 1 0 1, .output 1 2 0 1, .output 6 3 0 3, .output 0 5 1 3,
+     .quiesce] = false := by decide
+
+/-- An output that is not in its transaction's batch (input 3 written by transaction 1, which polled 1 and 2):
+refused. So are an output of a transaction that never polled anything and an output for a record that is no
+input. -/
+example : accepts
+    [.input 1, .input 2, .input 3,
+     .memberStart 1,
+     .batch 1 1 [1, 2], .endStart 1 1 true, .endDone 1 1 0,
+     .batch 1 2 [3], .endStart 1 2 true, .endDone 1 2 0, .memberStop 1,
+     .output 0 1 0 1, .output 1 2 0 1, .output 2 3 0 1,
+     .quiesce] = false := by decide
+example : accepts
+    [.input 1, .memberStart 1, .batch 1 1 [1], .endStart 1 1 true, .endDone 1 1 0,
+     .output 0 1 0 9, .quiesce] = false := by decide
+example : accepts
+    [.input 1, .memberStart 1, .batch 1 1 [1], .endStart 1 1 true, .endDone 1 1 0,
+     .output 0 1 0 1, .output 1 8 0 1, .quiesce] = false := by decide
 
 end Props.C10
